@@ -297,7 +297,23 @@ def classify(h, r):
 # native replay
 # ---------------------------------------------------------------------------------------------
 
-PLAYBACK_RE = re.compile(r"```\n/// Test generated for harness[^\n]*\n///\s*\n/// Check for `(\w+)`: \"([^\n]*)\"\n\s*\n(#\[test\]\nfn (kani_concrete_playback_\w+)\(\) \{.*?\n\})\n```", re.S)
+PLAYBACK_RE = re.compile(r"```\n/// Test generated for harness[^\n]*\n///\s*\n/// Check for `(\w+)`: \"([^\n]*)\"\n(?:///[^\n]*\n)*\s*\n(#\[test\]\nfn (kani_concrete_playback_\w+)\(\) \{.*?\n\})\n```", re.S)
+
+
+def replay_hang(h, prop):
+    """A derived-bound unwinding failure (hang): Kani gives no playback test for it, so the
+    registry names a handwritten concrete #[test] in the harness file; it is run natively under a
+    watchdog and counts as reproduced iff it does not return."""
+    os.makedirs(os.path.join(REPLAYS, prop), exist_ok=True)
+    path = os.path.join(REPLAYS, prop, h["name"] + ".hang.rs")
+    name = h.get("hang_test")
+    if not name:
+        return False, path, "termination failure (unwinding assertion on a loop with derived bound) but no concrete hang witness test is registered for this harness"
+    with open(path, "w") as f:
+        f.write("// native replay for harness %s (property %s), crate %s, file %s\n" % (h["name"], prop, h["crate"], h["file"]))
+        f.write("// hang witness: the named test is part of the harness file; re-run: /verif/check.py --replay %s\n" % path)
+        f.write("// hang_test %s\n" % name)
+    return run_replay_file(path)
 
 
 def replay_native(h, prop, wanted=None, tests=None):
@@ -339,6 +355,12 @@ def run_replay_file(path):
         return False, path, "not a replay file"
     hname, prop, crate, hfile = m.groups()
     names = re.findall(r"fn (kani_concrete_playback_\w+)\(\)", txt)
+    wanted_msgs = {}
+    for mm in re.finditer(r"// failing check: \"?(.*?)\"?\n#\[test\]\nfn (kani_concrete_playback_\w+)", txt):
+        wanted_msgs[mm.group(2)] = mm.group(1).strip().strip('"')
+    hang = re.search(r"^// hang_test (\w+)", txt, re.M)
+    if hang:
+        names = [hang.group(1)]
     scratch = os.path.join(CACHE, "replay", hname)
     shutil.rmtree(scratch, ignore_errors=True)
     if crate == "profirust":
@@ -360,22 +382,38 @@ def run_replay_file(path):
     for n in names:
         cmd = ["cargo", "kani", "playback", "-Z", "concrete-playback", "--", n]
         try:
-            p = subprocess.run(cmd, cwd=cwd, env=env, stdout=subprocess.PIPE, stderr=subprocess.STDOUT, timeout=1500)
-            out = p.stdout.decode(errors="replace")
+            pr = subprocess.Popen(cmd, cwd=cwd, env=env, stdout=subprocess.PIPE, stderr=subprocess.STDOUT, preexec_fn=os.setsid)
+            try:
+                outb, _ = pr.communicate(timeout=400 if not hang else 240)
+            except subprocess.TimeoutExpired:
+                try:
+                    os.killpg(pr.pid, 9)
+                except ProcessLookupError:
+                    pass
+                pr.communicate()
+                raise
+            out = outb.decode(errors="replace")
         except subprocess.TimeoutExpired:
             # a native hang is a reproduction of a termination violation
-            out = "native replay did not terminate within 1500 s"
+            out = "native run did not terminate within its watchdog time (hang reproduced)"
             reproduced = True
             details.append(n + ": " + out)
             continue
         pm = re.search(r"panicked at ([^\n]*):\n([^\n]*)", out)
         if re.search(r"test result: FAILED", out) and pm:
             msg = pm.group(2).strip()
+            want = wanted_msgs.get(n)
+            generic = want is None or "placeholder message" in want or want.startswith("attempt to") or "index out of bounds" in want or "unwinding" in want
             if "kani::assume should always hold" in out:
                 details.append(n + ": assumption failed natively (not a reproduction): " + msg)
-            else:
+            elif generic and not pm.group(1).startswith("/verif/"):
                 reproduced = True
                 details.append(n + ": panicked at " + pm.group(1) + ": " + msg)
+            elif not generic and (want in msg or msg in want or want.split(":")[0] in msg):
+                reproduced = True
+                details.append(n + ": panicked at " + pm.group(1) + ": " + msg)
+            else:
+                details.append(n + ": panics natively, but not with the failure the solver reported (solver: %r, native: %r at %s) - not counted" % (want, msg, pm.group(1)))
         elif re.search(r"test result: ok", out):
             details.append(n + ": passes natively (does not reproduce)")
         else:
@@ -492,8 +530,13 @@ def check_property(prop, tier, only=None, jobs=None, use_cache=True, do_replay=T
                     unknown.append(f)
             sample["failed_checks"] = [f["label"] + " | " + f["desc"] + " | " + f["loc"] for f in mine_u]
             if unknown:
-                if do_replay:
-                    ok, path, det = replay_native(h, prop, wanted=[f["desc"] for f in unknown])
+                hangs = [f for f in unknown if f["kind"] == "hang"]
+                if do_replay and hangs and len(hangs) == len(unknown):
+                    ok, path, det = replay_hang(h, prop)
+                elif do_replay:
+                    ok, path, det = replay_native(h, prop, wanted=[f["desc"] for f in unknown if f["kind"] != "hang"])
+                    if not ok and hangs:
+                        ok, path, det = replay_hang(h, prop)
                 else:
                     ok, path, det = True, "(replay skipped)", "replay skipped on request"
                 sample["replay"] = {"path": path, "reproduced": ok, "details": det}
